@@ -509,6 +509,11 @@ def r4(ctx, R):
                                 why = f"drops the matched prefix (pattern min width {w})"
                         if why:
                             progress[i] = f"{unparse(a)}: {why}"
+                if isinstance(a, ast.Assign) and len(a.targets) == 1 and isinstance(a.value, ast.Constant) and a.value.value is None:
+                    # `X = None` under `while X is not None`: the iteration that runs it is the last one
+                    t_ = lp.test
+                    if isinstance(t_, ast.Compare) and len(t_.ops) == 1 and isinstance(t_.ops[0], ast.IsNot) and isinstance(t_.comparators[0], ast.Constant) and t_.comparators[0].value is None and access_path(t_.left) and access_path(t_.left) == access_path(a.targets[0]):
+                        progress[i] = f"{unparse(a)} makes the loop test false"
                 for c in calls_in(a):
                     if isinstance(c.func, ast.Attribute) and c.func.attr in ("pop", "popleft", "remove") and access_path(c.func.value) in V:
                         progress[i] = f"{unparse(c)} shrinks the tested container"
